@@ -128,9 +128,27 @@ func decorFor(id int) decoration.Decoration {
 	return customFromMask(7 | 1<<(2+id)) // distinct per id (field 2+id set to its own glyph)
 }
 
+// c17Builtin is the init-time built-in that the builtin-name families overwrite (and restore through the public
+// API afterwards); id 9 stands for its original value.
+const c17Builtin = "utf8-double"
+
+// built lazily: nothing of the library may run before C16's cold-start program
+var c17BuiltinOrigVal *decoration.Decoration
+
+func c17Orig() decoration.Decoration {
+	if c17BuiltinOrigVal == nil {
+		d := decoration.UTF8BoxDouble()
+		c17BuiltinOrigVal = &d
+	}
+	return *c17BuiltinOrigVal
+}
+
 func decorID(d decoration.Decoration, ids int) int {
 	if d == decoration.EmptyDecoration {
 		return 0
+	}
+	if d == c17Orig() {
+		return 9
 	}
 	for i := 1; i <= ids; i++ {
 		if d == decorFor(i) {
@@ -194,11 +212,15 @@ func c17Exec(op c17Op, names []string, thread int, clock *int, log *[]regEvent) 
 		ev.renderErr = rerr != nil
 		ev.gotDecor = 0
 		if rerr == nil {
-			for i := 1; i <= 3; i++ {
+			for _, i := range []int{1, 2, 3, 9} {
 				ref := texttable.New()
 				ref.AddHeaders("h")
 				ref.AddRowItems("a")
-				ref.SetDecoration(decorFor(i))
+				if i == 9 {
+					ref.SetDecoration(c17Orig())
+				} else {
+					ref.SetDecoration(decorFor(i))
+				}
 				if r, _ := ref.Render(); r == out {
 					ev.gotDecor = i
 				}
@@ -333,11 +355,26 @@ func runC17schedMenu(x *X, family string, nthreads, opsPer int, bound int, c17Me
 			serial = fmt.Sprintf("fresh%07d", freshSerial)
 		}
 		names := []string{"n" + serial, "m" + serial, "never" + serial}
+		builtin := strings.HasPrefix(family, "builtin-name")
+		if builtin {
+			names[1] = c17Builtin
+		}
 		c.Logf("program %s (names %v)", desc, names)
-		defer resetNames(names...)
+		if builtin {
+			defer resetNames(names[0], names[2])
+			defer decoration.RegisterDecorationName(c17Builtin, c17Orig())
+		} else {
+			defer resetNames(names...)
+		}
 		initial := map[string]int{}
 		if !fresh {
-			initial = prepareNames(names[0], names[1])
+			if builtin {
+				initial = prepareNames(names[0])
+				decoration.RegisterDecorationName(c17Builtin, c17Orig())
+				initial[c17Builtin] = 9
+			} else {
+				initial = prepareNames(names[0], names[1])
+			}
 		}
 		var log []regEvent
 		clock := 0
@@ -380,17 +417,29 @@ func runC17schedMenu(x *X, family string, nthreads, opsPer int, bound int, c17Me
 func runC17(x *X) {
 	// sequential histories: map model + fails closed
 	depth := x.Pick(4, 5)
-	x.Explore("sequential", ExploreOpts{ShardDepth: 2, Bound: fmt.Sprintf("all sequences of <=%d registry operations", depth)}, func(c *Chooser) {
+	x.Explore("sequential", ExploreOpts{ShardDepth: 2, Bound: fmt.Sprintf("all sequences of <=%d registry operations; name m is a fresh name (10 lengths) or the init-time built-in %s (overwritten, restored afterwards)", depth, c17Builtin)}, func(c *Chooser) {
 		serial := nextSerial(x)
 		names := []string{"n" + serial, "m" + serial, "never" + serial}
-		// name lengths around typical thresholds
-		if pad := []int{0, 61, 62, 63, 64, 65, 127, 128, 256, 300}[c.Choose(10)]; pad > 0 {
+		// name lengths around typical thresholds; last choice: m is a built-in
+		padChoice := c.Choose(11)
+		builtin := padChoice == 10
+		if pad := []int{0, 61, 62, 63, 64, 65, 127, 128, 256, 300, 0}[padChoice]; pad > 0 {
 			for i := range names {
 				names[i] += strings.Repeat("L", pad)
 			}
 		}
-		defer resetNames(names...)
-		initial := prepareNames(names[0], names[1])
+		var initial map[string]int
+		if builtin {
+			names[1] = c17Builtin
+			defer resetNames(names[0], names[2])
+			defer decoration.RegisterDecorationName(c17Builtin, c17Orig())
+			initial = prepareNames(names[0])
+			decoration.RegisterDecorationName(c17Builtin, c17Orig())
+			initial[c17Builtin] = 9
+		} else {
+			defer resetNames(names...)
+			initial = prepareNames(names[0], names[1])
+		}
 		var log []regEvent
 		clock := 0
 		var d []string
@@ -507,6 +556,7 @@ func runC17(x *X) {
 		}
 	})
 	runC17sched(x, "3-threads-1-op", 3, 1, x.Pick(2, 4))
+	runC17sched(x, "builtin-name-3-threads-1-op", 3, 1, x.Pick(2, 3))
 	runC17sched(x, "2-threads-2-ops", 2, 2, x.Pick(3, 1000))
 	if vrt.ResetHook == nil {
 		// nothing can be removed from this registry: the families above start every execution with the names already
